@@ -1,27 +1,37 @@
 """Runs one scenario in a fresh interpreter with a shifted wall clock and prints the normalised ledgers.
-usage: child_run.py <offset_seconds>   (scenario JSON on stdin; PYTHONHASHSEED set by the parent)"""
+usage: child_run.py <offset_seconds> [<seconds added per clock reading>]   (scenario JSON on stdin; PYTHONHASHSEED set by the parent)"""
 import json
 import sys
 import os
 
 offset = float(sys.argv[1])
+# optional: a wall clock that RUNS - every reading of it is `step` seconds later than the previous one
+step = float(sys.argv[2]) if len(sys.argv) > 2 else 0.0
 import time as _time
 import datetime as _dt
 
 _rt, _rtn = _time.time, _time.time_ns
-_time.time = lambda: _rt() + offset
-_time.time_ns = lambda: _rtn() + int(offset * 1e9)
+_drift = [0.0]
+
+
+def _off():
+    _drift[0] += step
+    return offset + _drift[0]
+
+
+_time.time = lambda: _rt() + _off()
+_time.time_ns = lambda: _rtn() + int(_off() * 1e9)
 _RealDT = _dt.datetime
 
 
 class _ShiftedDT(_RealDT):
     @classmethod
     def utcnow(cls):
-        return _RealDT.utcnow() + _dt.timedelta(seconds=offset)
+        return _RealDT.utcnow() + _dt.timedelta(seconds=_off())
 
     @classmethod
     def now(cls, tz=None):
-        return _RealDT.now(tz) + _dt.timedelta(seconds=offset)
+        return _RealDT.now(tz) + _dt.timedelta(seconds=_off())
 
 
 _dt.datetime = _ShiftedDT
